@@ -293,12 +293,13 @@ def run_world(case, sdk, checks):
                     check_describe(w, i, t, o)
             continue
         # ---- single item operations
-        if "frontend" in checks and name in ("put", "update", "delete") and (op.get("garbageCond") or op.get("garbageUpdate")):
+        blank_cond = known_nonsentence(hx(op.get("cond") or "")) and (op["table"], "cond", norm_ws(hx(op.get("cond") or ""))) not in w.matchers
+        if "frontend" in checks and name in ("put", "update", "delete") and (op.get("garbageCond") or op.get("garbageUpdate") or blank_cond):
             # the condition of a write is always evaluated, the update expression always parsed: no way around an error
             # (with the native interpreter active an update without a registered updater fails as unsupported: an error too)
-            if k in ("ok", "item") or (op.get("garbageCond") and expected_err(o, "ConditionalCheckFailed")):
+            if k in ("ok", "item") or ((op.get("garbageCond") or blank_cond) and expected_err(o, "ConditionalCheckFailed")):
                 w.flag(i, "malformed-expression-accepted", "%s with a %s that is not a sentence of the grammar returned %s" %
-                       (name, "condition" if op.get("garbageCond") else "update expression", json.dumps(o)[:80]))
+                       (name, "condition" if (op.get("garbageCond") or blank_cond) else "update expression", json.dumps(o)[:80]))
         if name == "put":
             key = keytuple(t.schema, op.get("item", []))
             cond_expect = cond_outcomes(w, op, t, key, "condTree")
@@ -427,6 +428,9 @@ def run_world(case, sdk, checks):
                 check_pages(w, i, t, op, o, checks)
             elif k == "pagesErr":
                 pages = o["pagesErr"]["pages"]
+                if pages and expected_err(o["pagesErr"].get("error") or {}, "Validation") and ({"pages", "search", "index"} & set(checks)) \
+                        and not (op.get("garbageKey") or op.get("garbageFilter")) and well_formed_placeholders(op):
+                    w.flag(i, "own-lek-rejected", "page %d was read and returned a LastEvaluatedKey; resuming from that very key was refused with a validation error" % len(pages))
                 if op.get("delAfter") is not None and len(pages) > op["delAfter"] and pages[op["delAfter"]]["lek"]:
                     dk = keytuple(t.schema, pages[op["delAfter"]]["lek"])
                     if dk is not None:
@@ -610,6 +614,14 @@ NATIVE_TREES = {
     b"h = :x AND v = :x": {"k": "and", "a": {"k": "cmp", "op": "=", "l": {"k": "path", "root": "68", "steps": []}, "r": {"k": "val", "v": {"S": "31"}}},
                           "b": {"k": "cmp", "op": "=", "l": {"k": "path", "root": "76", "steps": []}, "r": {"k": "val", "v": {"S": "31"}}}},
 }
+
+
+def known_nonsentence(raw):
+    """one of the known native texts with a blank inside a word or between ':' and its name: another text, and no sentence"""
+    if not raw or norm_ws(raw) in NATIVE_TREES:
+        return False
+    squeeze = lambda b: bytes(c for c in b if c not in b" \t\n\r")
+    return any(squeeze(raw) == squeeze(k) for k in NATIVE_TREES)
 
 
 def expr_predicate(w, op, table_hex, kind, text_field, tree_field):
